@@ -82,7 +82,7 @@ func genVC(P *Program, C *Contracts, S *Sorts, key string, pure map[*ssa.Functio
 		vc.Errs = append(vc.Errs, "no such function in the loaded program: "+key)
 		return vc
 	}
-	ex := &Exec{P: P, C: C, S: S, topKey: key, top: ct, mutable: map[string]bool{}, notes: map[string]bool{}, heapDecl: map[string]bool{}, oblNames: map[string]int{}, globals: map[string]string{}, funcsUsed: map[string]string{}, pure: pure, nonneg: map[string]bool{}}
+	ex := &Exec{P: P, C: C, S: S, topKey: key, top: ct, mutable: map[string]bool{}, notes: map[string]bool{}, heapDecl: map[string]bool{}, oblNames: map[string]int{}, globals: map[string]string{}, funcsUsed: map[string]string{}, pure: pure, nonneg: map[string]bool{}, writable: map[string][]string{}, topFn: fn}
 	for _, h := range ct.Modifies {
 		if _, ok := S.heaps[h]; !ok {
 			ex.fail("%s: modifies unknown heap %s", key, h)
@@ -93,7 +93,7 @@ func genVC(P *Program, C *Contracts, S *Sorts, key string, pure map[*ssa.Functio
 	f := &Frame{ex: ex, fn: fn, key: shortName(key), pfx: "", contract: ct,
 		regs: map[ssa.Value]Val{}, out: map[*ssa.BasicBlock]*State{}, outPC: map[*ssa.BasicBlock]string{}, edge: map[[2]*ssa.BasicBlock]string{},
 		rangeVis: map[*ssa.Range]string{}, rangeVisCur: map[*ssa.Range]string{}, ghosts: map[string]string{}}
-	entry := &State{cells: map[cellKey]Val{}, heaps: map[string]string{}, wm: "0"}
+	entry := &State{cells: map[cellKey]Val{}, heaps: map[string]string{}, wm: "(- 1)"} // address -1 is reserved: "no object"
 	ex.entry = entry
 	bind := map[string]string{}
 	for _, p := range fn.Params {
@@ -116,6 +116,15 @@ func genVC(P *Program, C *Contracts, S *Sorts, key string, pure map[*ssa.Functio
 		f.ghosts[g.Name] = n
 	}
 	envPre := f.contractEnv(ct, bind, entry, entry)
+	for _, w := range ct.Writes {
+		if _, ok := S.heaps[w.Heap]; !ok {
+			ex.fail("%s: writes unknown heap %s", key, w.Heap)
+			continue
+		}
+		t := ex.def("wr", "Int", substSX(w.Term, envPre))
+		ex.assume("(= (select " + ex.heapTerm(entry, w.Heap) + " " + t + ") (select " + ex.frozen(w.Heap) + " " + t + "))")
+		ex.writable[w.Heap] = append(ex.writable[w.Heap], t)
+	}
 	for _, r := range ct.Requires {
 		ex.assume(substSX(r.Term, envPre))
 	}
@@ -225,6 +234,10 @@ func genVC(P *Program, C *Contracts, S *Sorts, key string, pure map[*ssa.Functio
 				}
 			}
 			f.oblige("ensures_fresh", fr.Name, implies(and(retPC, cond), "(< "+ptrT+" 0)"), ct.Tags, ct.Src)
+		}
+		for i, fo := range ct.FreshObjs {
+			t := substSX(fo.Term, envPost)
+			f.oblige("ensures_fresh", fmt.Sprintf("obj%d", i+1), implies(retPC, "(< "+t+" 0)"), ct.Tags, ct.Src)
 		}
 		if ct.Panics != nil {
 			f.oblige("panics_exact", "no_return_when_panics", implies(retPC, not(panicsCond)), ptags, ct.Panics.Src)
